@@ -33,6 +33,7 @@ Definition dec_label (v : val) : option label :=
   | VL [VN 18; g; n] => Some (LTake (b_of g) (n_of n))
   | VL [VN 19; e] => Some (LErrBcast (n_of e))
   | VL [VN 20] => Some LWriteFail
+  | VL [VN 21; e] => Some (LRaise (n_of e))
   | _ => None
   end.
 
